@@ -67,6 +67,10 @@ def _is_repeat_push(prog, c):
 
 
 def check_c01(prog, rep, tier, cfg):
+    # C01.h — nothing is lost at the output boundary: no partial write, stdout only through a lock (shared with C16.i)
+    import orch as _orch
+    from engine import AliasReport as _AR
+    _orch.c16i(prog, _AR(rep, [("C16.i", r"no-partial-write", "C01.h")]))
     # C01.g — the bytes that leave the process are an encoding of the formatted text by the file's encoding (shared with C17.c): the
     # character sequence is compared after decoding, so handing out other bytes changes it
     import orch as _orch
